@@ -160,6 +160,37 @@ theorem every_request_answered_once_at_quiescence (clk : Nat → Int) (b : Syste
   rw [(engine_log_is_requests clk b c acts hlog).1, ← h2]
   exact h1.filterMap responseIdent
 
+/-- (spec key `resp`, oracle review C20E-H1) The same, stated on the request log the `spec` driver
+reads (`Sys.requests`, the requests the engine sent) and without any hypothesis on the built engine:
+at quiescence the identities (kind, instrument, client order id) of the responses the engine has
+processed are, as a multiset, exactly the identities of the requests it sent — one response per
+request, none twice, none missing. The driver prints both sides as sorted lists. -/
+theorem responses_are_requests_at_quiescence (clk : Nat → Int) (b : SystemBuild LEng)
+    (c : MockExchange.Cfg) (acts : List (Act MktEv Command))
+    (hq : Quiescent (lreach clk b c acts)) :
+    let s := lreach clk b c acts
+    ((accountOf s.processed).filterMap responseIdent).Perm (s.requests.map reqIdent) := by
+  intro s
+  have h1 := (Props.C20S.quiescent_everything_processed lEngine (lExchange clk) b
+    (exchInit clk c).1 (exchInit clk c).2 acts hq).2.2
+  have h2 := (one_response_per_request clk b c acts).2
+  rw [← h2]
+  exact h1.filterMap responseIdent
+
+/-- … and before quiescence (every schedule, every moment) no identity is answered more often than
+it was requested: the count of processed responses with a given identity never exceeds the count of
+requests with that identity. -/
+theorem responses_never_exceed_requests (clk : Nat → Int) (b : SystemBuild LEng)
+    (c : MockExchange.Cfg) (acts : List (Act MktEv Command)) (id : ExecManager.Kind × Nat × Nat) :
+    let s := lreach clk b c acts
+    ((accountOf s.processed).filterMap responseIdent).count id ≤ (s.requests.map reqIdent).count id := by
+  show ((accountOf (lreach clk b c acts).processed).filterMap responseIdent).count id ≤
+    ((lreach clk b c acts).requests.map reqIdent).count id
+  obtain ⟨rest, hr⟩ := responses_processed_at_most_once clk b c acts
+  have := hr.count_eq id
+  rw [List.count_append] at this
+  omega
+
 /-- (content of a response) The order snapshot answering an open request is the exchange's verdict
 on THAT request in the state the earlier requests left (C08C `response_is_answer_to_own_request`),
 echoes the request's client order id, quantity, price and exchange, and is followed by the
